@@ -321,6 +321,11 @@ class Compiler(object):
             self.pre_process_extensibility_implied_type(type_descriptor)
 
     def pre_process_extensibility_implied_type(self, type_descriptor):
+        # SEQUENCE OF and SET OF.
+        if 'element' in type_descriptor:
+            self.pre_process_extensibility_implied_type(
+                type_descriptor['element'])
+
         if 'members' not in type_descriptor:
             return
 
